@@ -5,9 +5,10 @@ pub mod c02;
 pub mod c03;
 pub mod c04;
 pub mod c05;
+pub mod c07;
 pub mod tzchild;
 
-pub const ALL: &[&str] = &["C01", "C02", "C03", "C04", "C05"];
+pub const ALL: &[&str] = &["C01", "C02", "C03", "C04", "C05", "C07"];
 
 pub fn run(ctx: &Ctx) -> Option<Outcome> {
     match ctx.prop.as_str() {
@@ -16,6 +17,7 @@ pub fn run(ctx: &Ctx) -> Option<Outcome> {
         "C03" => Some(c03::run(ctx)),
         "C04" => Some(c04::run(ctx)),
         "C05" => Some(c05::run(ctx)),
+        "C07" => Some(c07::run(ctx)),
         _ => None,
     }
 }
